@@ -44,18 +44,15 @@
      C06_rollback_wf_preserved (the change's commit gives a well-formed stored map with nothing at all beneath a
      tombstone and indexes < j; its empty-inline view is the same map), C06_rollback_wf_preserved_by_rollback (so
      does the rollback's commit).
-   * the candidate the model plugin validates for the rollback: C06_rollback_restores_values_candidate_refuted -
-     live (candidate_rb vw1 rb) <> live vw for a well-formed input (stored {/a/c=1}, change = delete of the container
-     /a, any order): reconcileValidate's Rollback case overwrites the loaded values with the rollback values
-     (changeValues[path] = rollbackValue) without dropping the deleted ancestors, so the tombstone /a still covers the
-     restored /a/c and the plugin is shown the configuration WITHOUT the subtree that the commit then restores.
-     Reproduced on the real code (scripted history: set /a/c, delete /a, rollback: the plugin is shown {}; with a
-     second leaf /z whose validity depends on /a/c the rollback is refused INVALID although the restored configuration
-     is the one accepted before).  Proved instead: C06_rollback_candidate_shows_only_old (the candidate never shows
-     a value the old view did not show) and C06_rollback_restores_values_candidate_partial (it shows exactly the old
-     view under the extra named hypothesis [deletes_storedb vw ch]: every deleted path of ch is itself a stored value
-     or has no live value beneath it, i.e. the change deleted no non-empty container).  Missing for the full
-     statement: the repair of reconcileValidate (apply the rollback values with applyChangeToConfig).
+   * the candidate the model plugin validates for the rollback: C06_rollback_restores_values_candidate -
+     live (candidate_rb (overlay [] m1) (permute ord rb)) = live vw under the same rollback_wf, for every Go map order
+     ord in which reconcileValidate applies the rollback values (and C06_rollback_restores_values_candidate_any_view:
+     any loaded view of m1, any list order of rb): the verdict is taken on exactly the configuration the rollback
+     restores.  This is the REPAIRED code (/repo 3342112: the rollback values are applied with applyChangeToConfig).
+     Before it they overwrote the loaded values, the tombstone of a deleted container still covered the restored
+     subtree and the plugin was shown the configuration without it - finding F-24, found by this proof (the statement
+     was refuted for stored {/a/c=1}, change = delete of /a), reproduced on the real reconcilers, fixed; the old
+     function and witness are kept as the regression Example candidate_regression_F24 (Proofs/P2PureRollbackEx.v).
    PARTIAL / missing at protocol level: the protocol theorems are single-invocation facts.  The reach-level statement
    "whenever a rollback proposal is VALIDATED its recorded values equal those the change recorded when IT was
    validated" additionally needs: the configuration index is only ever the index of a proposal that has finished
@@ -290,33 +287,26 @@ Theorem C06_rollback_wf_preserved_by_rollback :
   wfb m2 = true /\ cleanb m2 = true.
 Proof. exact rollback_commit_preserves_wf. Qed.
 
-(* the candidate validated for the rollback is NOT always the restored configuration (delete of a container) *)
-Theorem C06_rollback_restores_values_candidate_refuted :
-  exists (ord1 i j : N) (m vw ch : cmap),
-    rollback_wf i j m vw ch = true /\
-    live (candidate_rb (overlay nil (commit_merge ord1 i m vw ch)) (rollback_of vw ch)) <> live vw.
-Proof. exact candidate_statement_refuted. Qed.
-
-(* it never shows a value the old view did not show ... *)
-Theorem C06_rollback_candidate_shows_only_old :
-  forall (ord1 i j : N) (m vw ch : cmap),
+(* the candidate the model plugin validates for the rollback shows exactly the restored configuration, for every Go map
+   order [ord] in which reconcileValidate applies the rollback values (repaired code, /repo 3342112, finding F-24;
+   regression Example candidate_regression_F24 for the function before the repair) *)
+Theorem C06_rollback_restores_values_candidate :
+  forall (ord1 ord i j : N) (m vw ch : cmap),
   rollback_wf i j m vw ch = true ->
   let rb := rollback_of vw ch in
   let m1 := commit_merge ord1 i m vw ch in
-  forall k val, In (k, val) (live (candidate_rb (overlay nil m1) rb)) -> In (k, val) (live vw).
-Proof. exact candidate_only_old. Qed.
+  live (candidate_rb (overlay nil m1) (permute ord rb)) = live vw.
+Proof. exact candidate_restored. Qed.
 
-(* ... and exactly the old view when the change deleted no non-empty container.  PARTIAL: [deletes_storedb vw ch]
-   (every deleted path is itself stored or has no live value beneath it) is the extra hypothesis; without it the
-   statement is false (C06_rollback_restores_values_candidate_refuted) until reconcileValidate's Rollback case is
-   repaired *)
-Theorem C06_rollback_restores_values_candidate_partial :
-  forall (ord1 i j : N) (m vw ch : cmap),
-  rollback_wf i j m vw ch = true -> deletes_storedb vw ch = true ->
+(* ... for any loaded view of the stored map and any list order of the rollback values *)
+Theorem C06_rollback_restores_values_candidate_any_view :
+  forall (ord1 i j : N) (m vw ch vw1 rb' : cmap),
+  rollback_wf i j m vw ch = true ->
   let rb := rollback_of vw ch in
   let m1 := commit_merge ord1 i m vw ch in
-  live (candidate_rb (overlay nil m1) rb) = live vw.
-Proof. exact candidate_partial. Qed.
+  nodupb vw1 = true -> sameb vw1 m1 = true -> nodupb rb' = true -> sameb rb' rb = true ->
+  live (candidate_rb vw1 rb') = live vw.
+Proof. exact candidate_restored_any_view. Qed.
 
 Print Assumptions C06_refused_not_latest.
 Print Assumptions C06_refused_missing.
@@ -334,6 +324,5 @@ Print Assumptions C06_rollback_restores_values.
 Print Assumptions C06_rollback_restores_values_any_view.
 Print Assumptions C06_rollback_wf_preserved.
 Print Assumptions C06_rollback_wf_preserved_by_rollback.
-Print Assumptions C06_rollback_restores_values_candidate_refuted.
-Print Assumptions C06_rollback_candidate_shows_only_old.
-Print Assumptions C06_rollback_restores_values_candidate_partial.
+Print Assumptions C06_rollback_restores_values_candidate.
+Print Assumptions C06_rollback_restores_values_candidate_any_view.
